@@ -8,12 +8,12 @@ static or dynamic, or a scalar / array constant which carries no timebase; a sum
 * the unary operations (negation, integer powers incl. `0` and negative exponents, indexing,
   copy, rename, the conversions `ss` / `tf` / `frd` / `nlsys`, similarity and canonical forms,
   `model_reduction`, `minreal`, `linearize`),
-* the binary operators `+ - * /` of every class with Python's dispatch, `feedback`,
+* the binary operators `+ - * /` of every class with Python's dispatch, `feedback`, `lft`,
 * the n-ary block-diagram functions `series`, `parallel`, `append`, `interconnect(…, dt=…)`,
   `combine_tf`.
 
 No new timebase rule is introduced here: `eval` only *composes* the per-operation functions of
-`Model/DtOps.lean` (`binDt`, `unDt`, `feedbackDt`, `feedbackConstDt`, `seriesDt`, `parallelDt`,
+`Model/DtOps.lean` (`binDt`, `unDt`, `feedbackDt`, `feedbackConstDt`, `lftDt`, `seriesDt`, `parallelDt`,
 `appendAllDt`, `icDt`, `combineTfDt`, `factoryDt`), i.e. the table that the exhaustive
 correspondence check of `harness/families/c05.py` validates against the real code.  n-ary
 operands are folded exactly as the code folds them (left to right: `reduce(lambda x, y: y * x)`,
@@ -47,6 +47,7 @@ inductive Op where
   | un (u : Un1)                     -- one child
   | bin (op : BinOp)                 -- two children: `l op r`
   | feedback                         -- two children: `feedback(l, r)`
+  | lft                              -- two children: `l.lft(r)` (`StateSpace.lft`)
   | series | parallel | append       -- one or more children, folded left to right
   | interconnect (kw : Option Dt)    -- any number of children, optional `dt=` keyword
   | combineTf                        -- any number of blocks (one block row)
@@ -83,6 +84,7 @@ def Expr.neg (e : Expr) : Expr := .un .neg e
 def Expr.pow (k : Int) (e : Expr) : Expr := .un (.pow k) e
 def Expr.bin (op : BinOp) (l r : Expr) : Expr := .node (.bin op) (.cons l (.cons r .nil))
 def Expr.fb (l r : Expr) : Expr := .node .feedback (.cons l (.cons r .nil))
+def Expr.lft (l r : Expr) : Expr := .node .lft (.cons l (.cons r .nil))
 def Expr.series (l : List Expr) : Expr := .node .series (EList.ofList l)
 def Expr.parallel (l : List Expr) : Expr := .node .parallel (EList.ofList l)
 def Expr.appendAll (l : List Expr) : Expr := .node .append (EList.ofList l)
@@ -127,6 +129,7 @@ def applyOp (cfg : DtArg) : Op → List Arg → Except Err Arg
   | .un u, [a] => unArg u a cfg
   | .bin op, [a, b] => do let s ← binDt op a b cfg; .ok (.sys s)
   | .feedback, [a, b] => do let s ← fbArg a b cfg; .ok (.sys s)
+  | .lft, [a, b] => do let s ← lftArg a b cfg; .ok (.sys s)
   | .series, .sys first :: rest => do let s ← seriesDt first rest cfg; .ok (.sys s)
   | .parallel, .sys first :: rest => do let s ← parallelDt first rest cfg; .ok (.sys s)
   | .append, .sys first :: rest => do let s ← appendAllDt first rest cfg; .ok (.sys s)
